@@ -31,6 +31,9 @@ func checkC01(c *Ctx, r *Report) {
 	c01List(c, r, a)
 	c01Sel(c, r, a)
 	c01Typename(c, r, a)
+	// excluded selections contribute no response key: the directive evaluator's rules (C09) are part of
+	// "exactly the selected data" and are re-stated here under this property
+	importRules(c, r, "C09", "C01.SKIP", "the @skip/@include rules of C09 (sticky exclusion, polarity, gate before every dispatch, operation variables), which decide which selections are in the response at all")
 	r.rule("C01.NATIVE", "lists held in the Go carriers the library walks itself (frozen table) are mirrored by the library's own element loops on every configuration: no path hands such a value to the root resolver's Len/Nth")
 	nativeListRule(c, r, a, "C01.NATIVE", "a root resolver written for its own containers answers Len 0 for it, so the list comes back empty, silently, instead of mirrored element by element")
 }
@@ -121,6 +124,54 @@ func c01Op(c *Ctx, r *Report, a *Anchors) {
 			}
 		}
 		r.check("C01.OP", fmt.Sprintf("%s: resolver-reaching call #%d to %s is made only with an operation", fnName(fn), n, fnName(cal)), ci.Pos(), ok, "the call is not dominated by a proof that an operation was found: an ambiguous or unknown operation name must execute no resolver")
+		// the selections resolved are those of the chosen operation: the *Field handed on is built in this
+		// call and its selection list is loaded from the operation value
+		for _, arg := range ci.Common().Args {
+			if !c.isNamed(arg.Type(), "Field") {
+				continue
+			}
+			okSels, why := true, ""
+			leaves, _ := phiLeaves(arg)
+			for _, lf := range leaves {
+				al, isAlloc := lf.val.(*ssa.Alloc)
+				if !isAlloc {
+					okSels, why = false, "the field handed to the resolver may be "+shortPath(vpath(lf.val))+", which is not built from the operation chosen in this call"
+					continue
+				}
+				found := false
+				for _, b := range fn.Blocks {
+					for _, in := range b.Instrs {
+						st, isSt := in.(*ssa.Store)
+						if !isSt {
+							continue
+						}
+						fa, isFA := st.Addr.(*ssa.FieldAddr)
+						if !isFA || rootAlloc(fa) != al {
+							continue
+						}
+						if _, f := fieldOwner(fa.X.Type(), fa.Field); f != "Sels" {
+							continue
+						}
+						if base, _, f2, ok2 := loadOfField(st.Val); ok2 && f2 == "Sels" {
+							for d := 0; d < 3; d++ {
+								if opVals[base] {
+									found = true
+								}
+								if fa2, isFA2 := base.(*ssa.FieldAddr); isFA2 {
+									base = fa2.X
+								} else {
+									break
+								}
+							}
+						}
+					}
+				}
+				if !found {
+					okSels, why = false, "the synthetic root field's selections are not loaded from the chosen operation"
+				}
+			}
+			r.check("C01.OP", fmt.Sprintf("%s: resolver-reaching call #%d resolves the selections of the chosen operation", fnName(fn), n), ci.Pos(), okSels && len(leaves) > 0, why+": a prepared document with several operations would run the selections of another operation than the one named")
+		}
 	}
 	r.floor("C01.OP", "resolver-reaching calls in the entry point", n, 2)
 }
@@ -615,5 +666,36 @@ func c01Typename(c *Ctx, r *Report, a *Anchors) {
 	}
 	if !found {
 		r.undecided("C01.TYPENAME", fnName(fn)+": __typename arm", fn.Pos(), "no response-map store under a field.Name == \"__typename\" test was found")
+	}
+}
+
+// importRules evaluates another property's rule set and re-states its obligations under one rule of
+// this property (same constructs, same verdicts).
+func importRules(c *Ctx, r *Report, from, rule, text string, only ...string) {
+	pd := registry[from]
+	if pd == nil {
+		r.undecided(rule, "rule set "+from, token.NoPos, "not registered")
+		return
+	}
+	sub := newReport(from, r.Tier, c)
+	pd.run(c, sub)
+	r.rule(rule, text)
+	for _, o := range sub.Obls {
+		if len(only) > 0 {
+			keep := false
+			for _, w := range only {
+				if o.Rule == w {
+					keep = true
+				}
+			}
+			if !keep {
+				continue
+			}
+		}
+		r.Obls = append(r.Obls, Obligation{Rule: rule, Key: o.Rule + " " + o.Key, Pos: o.Pos, Status: o.Status, Detail: o.Detail, Path: o.Path})
+		r.seenKeys[rule+"|"+o.Rule+" "+o.Key] = true
+	}
+	for f := range sub.FuncsSeen {
+		r.FuncsSeen[f] = true
 	}
 }
